@@ -169,6 +169,11 @@ def routing_family(tier):
             j = x["line"] - 1
             while j > 0 and json.loads(lines[j]).get("kind") != "reset":
                 j -= 1
+            if x["mon"].startswith("L2."):
+                l2["divergence_count"] += 1
+                if len(l2["divergences"]) < 10:
+                    l2["divergences"].append({"mon": x["mon"], "event": e})
+                continue
             viols.append({"mon": x["mon"], "case": e, "cls": e.get("phase", e.get("kind", "?")), "reset": json.loads(lines[j])})
     kinds, phases = {}, {}
     nt = {"C02": 0, "C14": 0, "C07": 0, "C13": 0}
@@ -433,11 +438,17 @@ def meta_family(tier):
         ccfgs = ["r3", "force_resync"] if tier == "quick" else ["r3", "force_resync", "nf"]
         cms = [tlc_model_check("metaconc_" + c, "MetaConc_MC.tla", "MetaConc_MC_%s.cfg" % c, workers=8, timeout=900 if tier == "quick" else 4000, xmx="12g", extra="") for c in ccfgs]
         # seeded design errors and the design as found before the repair (687ce64) must be rejected
+        # Repl.tla: replicators below the installed roles (reuse / drop / periodic re-assertion), liveness down to the Redis nodes
+        cms.append(tlc_model_check("repl", "Repl.tla", "Repl_MC.cfg", workers=4, timeout=600, xmx="4g", extra=""))
+        for v in ("bad_send_once", "bad_reuse_by_key"):
+            r = tlc_model_check("repl_" + v, "Repl.tla", "Repl_MC_%s.cfg" % v, workers=2, timeout=300, xmx="2g", extra="")
+            if r.get("ok") or not r.get("violated"):
+                raise ToolError("Repl design model accepts the design error %s" % v)
         for v in ("bad_epoch_before_map", "bad_no_lock", "bad_no_recheck", "force_asbuilt"):
             r = tlc_model_check("metaconc_" + v, "MetaConc_MC.tla", "MetaConc_MC_%s.cfg" % v, workers=4, timeout=600, xmx="4g", extra="")
             if r.get("ok") or not r.get("violated"):
                 raise ToolError("MetaConc design model accepts the design error %s" % v)
-        mc = {"name": "ProxyMeta_MC + MetaConc_MC[%s] + 4 design errors of MetaConc.tla rejected" % ",".join(ccfgs),
+        mc = {"name": "ProxyMeta_MC + MetaConc_MC[%s] + Repl_MC; 4 design errors of MetaConc.tla and 2 of Repl.tla rejected" % ",".join(ccfgs),
               "ok": mc["ok"] and all(m["ok"] for m in cms), "wall_s": round(mc["wall_s"] + sum(m["wall_s"] for m in cms), 1),
               "states": mc.get("states", 0) + sum(m.get("states", 0) for m in cms),
               "transitions": mc.get("transitions", 0) + sum(m.get("transitions", 0) for m in cms),
